@@ -44,7 +44,9 @@ def expressions(tier):
 
 
 def members_only(ast, tier):
-    return refmodel.members(ast, limit=8)
+    mem = refmodel.members(ast, limit=8)
+    big = [next(values.inflate(m, 40), None) for m in mem[:2]]        # the same members with about 40 elements
+    return mem + [b for b in big if b is not None]
 
 
 def natives(image, mode):
